@@ -162,7 +162,7 @@ class Solver:
             return self.canon(body, tracked, e[2], depth + 1)
         if k == "deref":
             c = self.canon(body, tracked, e[1], depth + 1)
-            return c if c in ("self", "header") else None
+            return c if c in ("self", "header", "derived") else None
         if k == "cast":
             if e[1] in ("PtrToPtr", "Transmute") or e[1].startswith("PointerCoercion"):
                 return self.canon(body, tracked, e[2], depth + 1)
@@ -180,6 +180,8 @@ class Solver:
                 return None
             if c == "header" and e[2] == 0:
                 return "counter"
+            if c in ("header", "derived"):
+                return "derived"
             return None
         if k == "call":
             t = body.term(e[1])
@@ -202,7 +204,14 @@ class Solver:
             if n.startswith("core::ptr::non_null::NonNull::<T>::") and a0 == "bufptr":
                 if n.rsplit("::", 1)[1] in ("add", "sub", "cast", "as_ptr", "offset"):
                     return "bufptr"
-            # Deref::deref(&LeanString) -> &str is a read view, not the handle
+            # any other local fn that takes the handle (or memory derived from it) and returns a
+            # reference / pointer hands out memory reachable from the handle
+            if t.get("local_key") and a0 in ("self", "header", "bufptr", "alloc", "derived") and not t["dest"]["p"]:
+                dty = body.local_ty(t["dest"]["l"]).strip()
+                if dty.startswith("&") or dty.startswith("*") or dty.startswith("core::ptr::non_null::NonNull"):
+                    return "derived"
+            if (n.startswith("core::ptr::mut_ptr::<impl *mut T>::") or n.startswith("core::ptr::const_ptr::<impl *const T>::") or n.startswith("core::ptr::non_null::NonNull::<T>::")) and a0 in ("derived", "header"):
+                return "derived"
             return None
         return None
 
@@ -455,12 +464,15 @@ class Solver:
             c = self.canon(body, tracked, lhs_e)
             if c == "self":
                 whole = True
+            elif c in ("derived", "header", "bufptr", "alloc", "counter"):
+                # a plain store into memory reachable from the handle (header word, buffer byte)
+                partial = True
             else:
                 # a projection below self?
                 pe = lhs_e
                 while pe[0] in ("field", "index", "downcast"):
                     pe = pe[1]
-                    if self.canon(body, tracked, pe) == "self":
+                    if self.canon(body, tracked, pe) in ("self", "derived", "header"):
                         partial = True
                         break
         else:
@@ -645,6 +657,9 @@ class Solver:
         entry = self.entry_stack[-1]
         if entry.ref != "own" or entry.inc or self.body_stack[-1] in self.FREES:
             return s
+        if s.ret == "Err" and s.dirty:
+            # reported as R-erratomic in this frame; callers see a clean failure
+            s = s._replace(dirty=False)
         if s.ref != "own":
             return s._replace(ref="own", inc=0)
         if s.inc:
@@ -872,6 +887,19 @@ class Solver:
                     out.add(s)
             finish(out)
             return
+
+        # ---- library write primitives whose destination is memory reachable from the handle
+        if n in ("core::ptr::write", "core::ptr::copy", "core::ptr::copy_nonoverlapping", "core::ptr::write_bytes",
+                 "core::ptr::mut_ptr::<impl *mut T>::write", "core::intrinsics::copy", "core::intrinsics::copy_nonoverlapping"):
+            di = 0 if n.endswith("::write") or n.endswith("write_bytes") else 1
+            if di < len(can) and can[di] in ("derived", "header", "bufptr", "alloc", "self"):
+                out = set()
+                for s in cur:
+                    if s.ref in ("rel", "notlast", "freed"):
+                        self.ob("R1", body, site, line, False, detail="write into the buffer in state ref=%s" % s.ref)
+                    out.add(s._replace(dirty=True))
+                finish(out)
+                return
 
         # ---- is_len_on_heap fact
         if n == "repr::heap_buffer::HeapBuffer::is_len_on_heap" and can and can[0] == "self":
